@@ -1927,6 +1927,19 @@ pub fn gen_control_flow(rng: &mut Rng, avoid: &Avoid) -> Scenario {
         if g.f.on_error_goto_0 && g.rng.chance(1, 5) {
             // the handler switches error trapping off before it resumes
             main.push(g.st(StmtKind::OnErrorGoto0));
+            if g.rng.chance(1, 3) {
+                // ... and then fails itself: the error ends the program and is reported
+                // with its position and the calls that were active when the first error
+                // was raised (the handler has not resumed, they still are)
+                let k = *g.rng.pick(&[
+                    FailKind::DivZero,
+                    FailKind::Overflow,
+                    FailKind::IllegalCall,
+                    FailKind::BadHandle,
+                    FailKind::DivZeroMid,
+                ]);
+                main.push(g.st(StmtKind::Fail(k)));
+            }
         }
         main.push(g.st(StmtKind::Resume(kind)));
     }
